@@ -42,7 +42,7 @@ REAL = ['circuits.core.manager.Manager.run/stop/tick/_dispatcher/processTask/_fi
 STUBBED = ['threading.Event -> virtual idle wait', 'time -> virtual clock', 'atexit/signal registration -> no-ops',
            'threaded part: RLock/Event/Thread doubles + baton scheduler']
 ASSUMPTIONS = ['exactly one exit code per cycle (given by the stop action, or - if that carries none - by a SystemExit raised in the `stopped` handler)', 'a foreign-thread stop() happens after `started` was dispatched', 'events fired from generator steps after the stop took effect are not judged']
-PROBES = ['stop:started', 'stop:chain', 'stop:genstep', 'stop:timer', 'stop:idle-ctrl-c', 'form:stop()', 'form:stop(code)', 'form:SystemExit',
+PROBES = ['codeless-exit-while-stopping', 'stop:started', 'stop:chain', 'stop:genstep', 'stop:timer', 'stop:idle-ctrl-c', 'form:stop()', 'form:stop(code)', 'form:SystemExit',
           'form:KeyboardInterrupt', 'cycle>1', 'stop-when-not-running', 'queued-at-stop', 'task-at-stop', 'threaded', 'stopped-handler-fires', 'exit-code-while-stopping']
 TIERS = {
     'quick': dict(runs=32000, wall=35, chunk=100, cfg=dict(max_events=30, threaded_share=3)),
@@ -138,6 +138,13 @@ def _program(ctx, st, on_stop):
                     st['eff'] = (st['eff'][0], st['eff'][1] + '+SystemExit-in-stopped', act[1])
                     ctx.trace('    >>> raise SystemExit(%r) in %s (the manager is stopping already)' % (act[1], st['where']))
                     raise SystemExit(act[1])
+            elif act[0] == 'late-exit-nocode':
+                if st['stop_done'] == st['cycle'] and st['eff'][2] is not None:
+                    # a second, code-less exit while the manager is stopping (a clean-up handler ending with sys.exit()): it carries no code,
+                    # the code the stop action gave is still the one exit code of the cycle
+                    ctx.stat('codeless-exit-while-stopping')
+                    ctx.trace('    >>> raise SystemExit() in %s (the manager is stopping already, with exit code %r)' % (st['where'], st['eff'][2]))
+                    raise SystemExit()
 
     def gen_segments(allow_stop, force_gen):
         nseg = 1 + (ch.weighted([5, 2, 1], 'nseg') if not force_gen else 1 + ch.draw(2, 'nseg2'))
@@ -195,6 +202,8 @@ def _program(ctx, st, on_stop):
     # itself carries no code, the `stopped` handler may end with `raise SystemExit(code)` (the one exit code of the cycle)
     if code is None and ch.chance(1, 4, 'late-exit'):
         stopped_seg.append(('late-exit', ch.choice([3, 'text', 0], 'late-code')))
+    elif code is not None and ch.chance(1, 4, 'late-exit-nocode'):
+        stopped_seg.append(('late-exit-nocode',))
 
     def on_started(self, event, component):
         if component is not self:
